@@ -28,11 +28,17 @@ class PerformanceConfig:
     enabled: bool = True
     # Per-rule switches: performance: {string-concat-loop: {enabled: false}, regex-in-loop: {...}}
     rule_enabled: dict[str, bool] = field(default_factory=dict)
+    # string-concat-loop: {report_each_concat: true} reports every += instead of one per variable
+    report_each_concat: bool = False
 
     def for_rule(self, rule_name: str) -> "PerformanceConfig":
         """Configuration as seen by one rule: its own switch combined with the linter's."""
         own = self.rule_enabled.get(rule_name, True)
-        return PerformanceConfig(enabled=self.enabled and own, rule_enabled=self.rule_enabled)
+        return PerformanceConfig(
+            enabled=self.enabled and own,
+            rule_enabled=self.rule_enabled,
+            report_each_concat=self.report_each_concat,
+        )
 
     @classmethod
     def from_dict(cls, config: dict[str, Any], language: str | None = None) -> "PerformanceConfig":
@@ -50,4 +56,12 @@ class PerformanceConfig:
             for key, value in config.items()
             if isinstance(value, dict)
         }
-        return cls(enabled=config.get("enabled", True), rule_enabled=rule_enabled)
+        concat_section = config.get("string-concat-loop", config.get("string_concat_loop"))
+        report_each = isinstance(concat_section, dict) and bool(
+            concat_section.get("report_each_concat", False)
+        )
+        return cls(
+            enabled=config.get("enabled", True),
+            rule_enabled=rule_enabled,
+            report_each_concat=report_each,
+        )
